@@ -633,7 +633,8 @@ func checkNatholeExits(c *engine.Ctx) {
 			return false
 		}
 		// deferred or direct call of a closure that deletes from sessions, or time.AfterFunc(…, such a closure)
-		if cf := engine.CalleeFn(call); cf != nil && cf.Parent() != nil && deletesFrom(cf, sessionsF) {
+		// (a closure, or a same-package method extracted from it)
+		if cf := engine.CalleeFn(call); cf != nil && cf.Pkg == hv.Pkg && deletesFrom(cf, sessionsF) {
 			return true
 		}
 		if o := engine.CalleeObj(call); o != nil && o.Pkg() != nil && o.Pkg().Path() == "time" && o.Name() == "AfterFunc" {
